@@ -370,6 +370,38 @@ def parse_waivers():
     return res
 
 
+def _innermost(toks, lf, i, apos):
+    """the smallest statement, starting at token i, that contains text offset apos: descends through blocks and the bodies of
+    if/else/for/while/do/switch; an anchor inside the parenthesised header selects that whole if/loop statement"""
+    while True:
+        j = lf.stmt(i)
+        k, v = toks[i][0], toks[i][1]
+        sub = None
+        if v == "{":
+            c = i + 1
+            while toks[c][1] != "}":
+                cj = lf.stmt(c)
+                if toks[c][2] <= apos < toks[cj - 1][3]:
+                    sub = c
+                    break
+                c = cj
+        elif k == "id" and v in ("if", "for", "while", "switch"):
+            b = lf.skip_parens(i + 1)
+            bj = lf.stmt(b)
+            if toks[b][2] <= apos < toks[bj - 1][3]:
+                sub = b
+            elif v == "if" and toks[bj][0] == "id" and toks[bj][1] == "else" and toks[bj + 1][2] <= apos:
+                sub = bj + 1
+        elif k == "id" and v == "do":
+            b = i + 1
+            bj = lf.stmt(b)
+            if toks[b][2] <= apos < toks[bj - 1][3]:
+                sub = b
+        if sub is None:
+            return (toks[i][2], toks[j - 1][3])
+        i = sub
+
+
 def inject_waivers(vdir):
     """switch one named CBMC check off for the top-level statement (of the named function) that contains the anchor"""
     done = []
@@ -398,10 +430,12 @@ def inject_waivers(vdir):
                 s_off, e_off = toks[i][2], toks[j - 1][3]
                 if s_off <= apos < e_off:
                     found = (s_off, e_off)
+                    found_i = i
                     break
                 i = j
             if not found:
                 raise StageError("waiver anchor %r: enclosing statement not found" % w["anchor"])
+            found = _innermost(toks, lf, found_i, apos)
             pre = '/*@WV{*/\n#pragma CPROVER check push\n#pragma CPROVER check disable "%s"\n/*@}WV*/' % w["check"]
             post = '/*@WV{*/\n#pragma CPROVER check pop\n/*@}WV*/'
             inserts.append((found[0], pre))
